@@ -48,13 +48,13 @@ theorem foldl_add_map {α : Type} (g : α → G) (l : List α) : ∀ acc : G, l.
 /-- every `Sum` form returns the group sum of what the iterator yields (the empty sum is 0) -/
 theorem gsumForms_correct : ∀ f ∈ (gsumForms : List (String × (List G → G))), ∀ l, f.2 l = l.sum := by
   simp only [gsumForms, List.forall_mem_cons]
-  repeat' (first | constructor | (intro l; first | trivial | (simp only [foldl_add_eq_sum, zero_add]) | (simp only [foldl_add_map, zero_add, List.map_id'])) | (intro f hf; simp at hf))
+  repeat' (first | constructor | (intro l; first | trivial | rfl | (simp only [foldl_add_eq_sum, zero_add]) | (simp only [foldl_add_map, foldl_add_eq_sum, zero_add, List.map_id', List.map_id])) | (intro f hf; simp at hf))
 
 /-- the multiscalar multiplication is the sum of the products, over the pairs `zip` forms (the shorter list decides) -/
 theorem msmForms_correct : ∀ f ∈ (msmForms : List (String × (List ℕ → List G → G))), ∀ ss ps,
     f.2 ss ps = ((ss.zip ps).map (fun sp => sp.1 • sp.2)).sum := by
   simp only [msmForms, List.forall_mem_cons]
-  repeat' (first | constructor | (intro ss ps; first | trivial | (simp only [foldl_add_map, zero_add]) | (simp only [foldl_add_map, zero_add, add_comm])) | (intro f hf; simp at hf))
+  repeat' (first | constructor | (intro ss ps; first | trivial | rfl | (simp only [foldl_add_map, foldl_add_eq_sum, zero_add]) | (simp only [foldl_add_map, foldl_add_eq_sum, zero_add, add_comm])) | (intro f hf; simp at hf))
 
 end Formulas.OpForms
 
